@@ -50,8 +50,13 @@ class PGPluginGroup(wrapt.ObjectProxy):
         if self.__wrapped__._is_foreign(key):
             return None  # e.g. a reference to a plugin of a different group
         key_, vers = plugin_args(key, version)
-        if key_ == self.name and (vers is None or vers == self.Plugin.version):
-            return self
+        if key_ == self.name:
+            # any request that the plugin group plugin group itself supports
+            own, req = (
+                AnyPluginRef(group=PG_GROUP_NAME, name=key_, version=v)
+                for v in (self.Plugin.version, vers or self.Plugin.version)
+            )
+            return self if own.supports(req) else None
         try:
             if grp_cls := self.__wrapped__._get_unsafe(key_, vers):
                 # now if the PG was not existing, it is + is stored in _self_groups
